@@ -654,7 +654,11 @@ pub broadcast proof fn lemma_lpopped_id(ls: Tree, until: int)
     requires top(ls) >= until,
     ensures #[trigger] lpopped(ls, until) == ls,
 {}
-pub broadcast group pick_lemmas { lemma_pick_follows_mk, lemma_pick_follows_leaf, lemma_pick_ok_top, lemma_pick_ok_mk, lemma_pick_ok_leaf, lemma_pick_ok_ok, lemma_lit_pol_mk, lemma_lit_pol_leaf, lemma_pick_ok_lpopped, lemma_pick_ok_step, lemma_lit_pol_lpopped_b, lemma_lpopped_mk, lemma_lpopped_id, lemma_lpopped_ok }
+pub broadcast proof fn lemma_lpopped_wf_b(ls: Tree, until: int)
+    requires wf(ls),
+    ensures wf(#[trigger] lpopped(ls, until)), top(lpopped(ls, until)) >= until || lpopped(ls, until) is Leaf,
+{ lemma_lpopped_wf(ls, until); }
+pub broadcast group pick_lemmas { lemma_lpopped_wf_b, lemma_pick_follows_mk, lemma_pick_follows_leaf, lemma_pick_ok_top, lemma_pick_ok_mk, lemma_pick_ok_leaf, lemma_pick_ok_ok, lemma_lit_pol_mk, lemma_lit_pol_leaf, lemma_pick_ok_lpopped, lemma_pick_ok_step, lemma_lit_pol_lpopped_b, lemma_lpopped_mk, lemma_lpopped_id, lemma_lpopped_ok }
 
 // ---------- model counting (C12) ----------
 pub open spec fn pow2(k: nat) -> int decreases k { if k == 0 { 1 } else { 2 * pow2((k - 1) as nat) } }
@@ -1703,7 +1707,7 @@ impl<E: Edge, N: InnerNode<E>> ReducedOrNew<E, N> {
 mod apply_rec {
 use super::*;
 broadcast use {ce_core};
-//@fn file=crates/oxidd-rules-bdd/src/complement_edge/apply_rec.rs path=fn:apply_bin nodecr expect=R5:1 props=C02,C06 vis=pub
+//@fn file=crates/oxidd-rules-bdd/src/complement_edge/apply_rec.rs path=fn:apply_bin nodecr props=C02,C06 vis=pub
 //@spec
     requires is_nat(OP), edge_ok::<M::Edge>(), okc(f.cv(), manager.num_levels_spec()), okc(g.cv(), manager.num_levels_spec()),
     ensures res is Ok ==> bin_post(opcode(OP), f.cv(), g.cv(), manager.num_levels_spec(), res->Ok_0.cv()),
@@ -1713,7 +1717,7 @@ broadcast use {ce_core};
     requires edge_ok::<M::Edge>(), okc(f.cv(), manager.num_levels_spec()), okc(g.cv(), manager.num_levels_spec()),
     ensures res is Ok ==> bin_post(O_AND, f.cv(), g.cv(), manager.num_levels_spec(), res->Ok_0.cv()),
 //@end
-//@fn file=crates/oxidd-rules-bdd/src/complement_edge/apply_rec.rs path=fn:apply_ite nodecr expect=R5:1 props=C02,C06 vis=pub
+//@fn file=crates/oxidd-rules-bdd/src/complement_edge/apply_rec.rs path=fn:apply_ite nodecr props=C02,C06 vis=pub
 //@spec
     requires edge_ok::<M::Edge>(), okc(f.cv(), manager.num_levels_spec()), okc(g.cv(), manager.num_levels_spec()), okc(h.cv(), manager.num_levels_spec()),
     ensures res is Ok ==> ite_post(f.cv(), g.cv(), h.cv(), manager.num_levels_spec(), res->Ok_0.cv()),
@@ -1852,7 +1856,7 @@ mod apply_rec_q {
 use super::*;
 use super::apply_rec::*;
 broadcast use {ce_core, ce_tree, cpop_lemmas, quant_lemmas, quant2_lemmas};
-//@fn file=crates/oxidd-rules-bdd/src/complement_edge/apply_rec.rs path=fn:quant nodecr expect=R5:1 props=C04,C06 vis=pub cases=Q:BCDDOp::Forall~as~u8,BCDDOp::Exists~as~u8,BCDDOp::Unique~as~u8
+//@fn file=crates/oxidd-rules-bdd/src/complement_edge/apply_rec.rs path=fn:quant nodecr props=C04,C06 vis=pub cases=Q:BCDDOp::Forall~as~u8,BCDDOp::Exists~as~u8,BCDDOp::Unique~as~u8
 //@spec
     requires is_qop(Q), edge_ok::<M::Edge>(), okc(f.cv(), manager.num_levels_spec()), okc(vars.cv(), manager.num_levels_spec()),
     ensures res is Ok ==> quant_post(qcode(Q), f.cv(), vars.cv(), manager.num_levels_spec(), res->Ok_0.cv()),
@@ -1888,7 +1892,7 @@ use super::*;
 use super::apply_rec::*;
 use super::apply_rec_q::*;
 broadcast use {ce_core, ce_tree, cpop_lemmas, popped_lemmas, quant2_lemmas};
-//@fn file=crates/oxidd-rules-bdd/src/complement_edge/apply_rec.rs path=fn:apply_quant nodecr expect=R5:1,R12:1 props=C04,C06 vis=pub cases=Q:BCDDOp::Forall~as~u8,BCDDOp::Exists~as~u8,BCDDOp::Unique~as~u8
+//@fn file=crates/oxidd-rules-bdd/src/complement_edge/apply_rec.rs path=fn:apply_quant nodecr props=C04,C06 vis=pub cases=Q:BCDDOp::Forall~as~u8,BCDDOp::Exists~as~u8,BCDDOp::Unique~as~u8
 //@spec
     requires is_aq(Q, OP), edge_ok::<M::Edge>(), okc(f.cv(), manager.num_levels_spec()), okc(g.cv(), manager.num_levels_spec()), okc(vars.cv(), manager.num_levels_spec()),
     ensures res is Ok ==> apply_quant_post(qcode(Q), opcode(OP), f.cv(), g.cv(), vars.cv(), manager.num_levels_spec(), res->Ok_0.cv()),
@@ -1901,7 +1905,7 @@ use super::apply_rec::*;
 use super::apply_rec_q::*;
 use super::apply_rec_aq::*;
 broadcast use {ce_core, ce_tree, dual_lemmas};
-//@fn file=crates/oxidd-rules-bdd/src/complement_edge/apply_rec.rs path=fn:apply_quant_dispatch expect=R12:1 props=C04 vis=pub "selfcall=const OA: u8>exec const OA: u8,const OX: u8>exec const OX: u8"
+//@fn file=crates/oxidd-rules-bdd/src/complement_edge/apply_rec.rs path=fn:apply_quant_dispatch props=C04 vis=pub "selfcall=const OA: u8>exec const OA: u8,const OX: u8>exec const OX: u8"
 //@spec
     requires (Q == BCDDOp::Forall as u8 && QN == BCDDOp::Exists as u8) || (Q == BCDDOp::Exists as u8 && QN == BCDDOp::Forall as u8),
         edge_ok::<M::Edge>(), okc(f.cv(), manager.num_levels_spec()), okc(g.cv(), manager.num_levels_spec()), okc(vars.cv(), manager.num_levels_spec()),
@@ -1949,7 +1953,7 @@ broadcast use {ce_core, ce_tv, crestrict_lemmas};
 // becomes an early `return` of the tail expression with `complement := f_neg`.  `expect=R10:5` pins 1 label + 3 breaks + 1 occurrence
 // of the first line of the tail expression (identity replacement), so a change of either makes the unit UNDECIDED (anchor lost).
 // `f_neg` / `vars_neg` are the effective tags: the function restricted is `cwith(f, f_neg)`, the cube `cwith(vars, vars_neg)`.
-//@fn file=crates/oxidd-rules-bdd/src/complement_edge/apply_rec.rs path=fn:restrict/fn:inner rename=restrict__inner subst=InnerResult>restrict__InnerResult "selfcall='ret_f: {>{,InnerResult::Done(manager.clone_edge(&f).with_tag_owned(if complement {>InnerResult::Done(manager.clone_edge(&f).with_tag_owned(if complement {" "subst_text=break 'ret_f (f, f_neg);::=return restrict__InnerResult::Done(manager.clone_edge(&f).with_tag_owned(if f_neg { EdgeTag::Complemented } else { EdgeTag::None }));" expect=R10:5 props=C04 vis=pub
+//@fn file=crates/oxidd-rules-bdd/src/complement_edge/apply_rec.rs path=fn:restrict/fn:inner rename=restrict__inner subst=InnerResult>restrict__InnerResult "selfcall='ret_f: {>{,InnerResult::Done(manager.clone_edge(&f).with_tag_owned(if complement {>InnerResult::Done(manager.clone_edge(&f).with_tag_owned(if complement {" "subst_text=break 'ret_f (f, f_neg);::=return restrict__InnerResult::Done(manager.clone_edge(&f).with_tag_owned(if f_neg { EdgeTag::Complemented } else { EdgeTag::None }));" props=C04 vis=pub
 //@spec
     requires edge_ok::<M::Edge>(), okc(f.cv(), manager.num_levels_spec()), okc(vars.cv(), manager.num_levels_spec()),
         f.cv() == cmk(f.cv().neg, fnode.level_spec(), fnode.then_c(), fnode.else_c()), flevel == fnode.level_spec(),
@@ -1972,7 +1976,7 @@ use super::*;
 use super::apply_rec::*;
 use super::apply_rec_ri::*;
 broadcast use {ce_core, ce_tv, crestrict_lemmas};
-//@fn file=crates/oxidd-rules-bdd/src/complement_edge/apply_rec.rs path=fn:restrict hoist=inner>restrict__inner,InnerResult>restrict__InnerResult nodecr expect=R5:1 props=C04,C06 vis=pub
+//@fn file=crates/oxidd-rules-bdd/src/complement_edge/apply_rec.rs path=fn:restrict hoist=inner>restrict__inner,InnerResult>restrict__InnerResult nodecr props=C04,C06 vis=pub
 //@spec
     requires edge_ok::<M::Edge>(), okc(f.cv(), manager.num_levels_spec()), okc(vars.cv(), manager.num_levels_spec()),
     ensures res is Ok ==> restrict_post(f.cv(), vars.cv(), manager.num_levels_spec(), res->Ok_0.cv()),
@@ -1991,7 +1995,7 @@ mod apply_rec_s {
 use super::*;
 use super::apply_rec::*;
 broadcast use {ce_core, ce_tree, subst_lemmas};
-//@fn file=crates/oxidd-rules-bdd/src/complement_edge/apply_rec.rs path=fn:substitute nodecr expect=R5:1,R11:1 props=C04,C06 vis=pub
+//@fn file=crates/oxidd-rules-bdd/src/complement_edge/apply_rec.rs path=fn:substitute nodecr props=C04,C06 vis=pub
 //@spec
     requires edge_ok::<M::Edge>(), okc(f.cv(), manager.num_levels_spec()), all_ok(subst@, manager.num_levels_spec()),
         eviews(subst@) == subst_of(cache_id),
@@ -2012,6 +2016,14 @@ broadcast use {ce_core, ce_tree, ce_leaf, cpop_lemmas, pick_lemmas, cube_lemmas}
         res is Ok ==> forall|o: spec_fn(Tree, u32) -> bool| (forall|mm: &M, ee: &M::Edge, l: LevelNo, r: bool| #[trigger] choice.ensures((mm, ee, l), r) ==> r == o(tv(ee.cv()), l))
             ==> #[trigger] pick_follows(tv(edge.cv()), o, tv(res->Ok_0.cv())),
     decreases u32::MAX as int - ctop(edge.cv()),
+//@end
+//@fn file=crates/oxidd-rules-bdd/src/complement_edge/apply_rec.rs path=fn:literal_set_pop ret=r props=C13
+//@spec
+    requires cwf(set.cv()),
+    // literals above level `until` are dropped, following the non-false cofactor of each literal node
+    ensures tv(r.cv()) == lpopped(tv(set.cv()), until as int), cwf(r.cv()), ctop(r.cv()) >= ctop(set.cv()),
+        cbelow(set.cv(), manager.num_levels_spec()) ==> cbelow(r.cv(), manager.num_levels_spec()),
+    decreases u32::MAX as int - ctop(set.cv()),
 //@end
 //@fn file=crates/oxidd-rules-bdd/src/complement_edge/apply_rec.rs path=impl:BooleanFunction~for~BCDDFunction<F>/fn:pick_cube_dd_set_edge/fn:inner rename=pick_cube_dd_set_edge__inner props=C13
 //@spec
@@ -2054,7 +2066,7 @@ where M: Manager<EdgeTag = EdgeTag, Terminal = BCDDTerminal> + HasApplyCache<M, 
 mod apply_rec_c {
 use super::*;
 broadcast use {ce_core, ce_tv, count_lemmas, count_lemmas2, count_lemmas3, lemma_scnt_mk, lemma_key_bits, lemma_csat_count_exact};
-//@fn file=crates/oxidd-rules-bdd/src/complement_edge/apply_rec.rs path=impl:BooleanFunction~for~BCDDFunction<F>/fn:sat_count_edge/fn:inner rename=sat_count_edge__inner expect=R13:1 props=C12
+//@fn file=crates/oxidd-rules-bdd/src/complement_edge/apply_rec.rs path=impl:BooleanFunction~for~BCDDFunction<F>/fn:sat_count_edge/fn:inner rename=sat_count_edge__inner props=C12
 //@header
 fn sat_count_edge__inner<M: Manager<EdgeTag = EdgeTag, Terminal = BCDDTerminal>, N: SatCountNumber, S>(manager: &M, e: Borrowed<M::Edge>, terminal_val: &N, cache: &mut SatCountCache<N, S>) -> (res: N)
 //@spec
